@@ -2,5 +2,6 @@ SPECIFICATION Spec
 CONSTANTS
   MaxLen = 6
   LongLens = {8, 9, 16, 17, 33, 64, 130}
+  UniformLens = {101, 150, 400}
   Emit = TRUE
 INVARIANTS FailsIffSomeBad FirstFailure NoTreesOnFailure TreesInOrder
